@@ -36,6 +36,9 @@ def one(cul):
            'moy': [[k, v] for k, v in dc.month_of_year.items()],
            'dom': [[k, v] for k, v in dc.day_of_month.items()],
            'numbers': None}
+    if hasattr(cfg.time_parser, 'numbers_map'):
+        out['zh_numbers_map'] = [[k, v] for k, v in cfg.time_parser.numbers_map.items()]
+        out['zh_low_bound'] = [[k, v] for k, v in cfg.time_parser.low_bound_map.items()]
     tc = getattr(cfg.time_parser, 'config', None)
     if tc is not None and getattr(tc, 'numbers', None) is not None:
         out['numbers'] = [[k, v] for k, v in tc.numbers.items()]
@@ -161,6 +164,9 @@ def generate():
         else:
             if t['numbers'] is not None:
                 text += table('numbers_' + tag, t['numbers'], '%s time_parser.config.numbers' % cul)
+            if t.get('zh_numbers_map') is not None:
+                text += table('timeNumbers_zh', t['zh_numbers_map'], 'ChineseTimeParser.numbers_map (TimeNumberDictionary)')
+                text += table('timeLowBound_zh', t['zh_low_bound'], 'ChineseTimeParser.low_bound_map (TimeLowBoundDesc)')
             part = 'DtMapsX1' if i <= 4 else 'DtMapsX2'
             x[part] += text
     main += '/-- class of each culture\'s date parser (BaseDateParser cultures share match_to_date) -/\n'
